@@ -327,6 +327,16 @@ class Evaluator(Run):
 
     def _raw_nullable(self, n, frame):
         """the unresolved nullable value a Name denotes, if any (for `x is None` in clauses)"""
+        if isinstance(n, ast.Attribute):
+            try:
+                base = self.ev(n.value, frame)
+            except Unsupported:
+                return None
+            if base.is_const or base.t.kind != "obj":
+                return None
+            cell = self.cell(base) if self.old_heap is None else self.old_heap[base.z]
+            v = cell.content.get(n.attr)
+            return v if v is not None and v.t.kind == "nullable" else None
         if not isinstance(n, ast.Name):
             return None
         v = frame.lookup(n.id) if frame is not None else None
@@ -1084,7 +1094,9 @@ class Evaluator(Run):
         cell = self.cell(base)
         self.write_check(base.z)
         ft = base.t.fields.get(attr) if hasattr(base.t, "fields") else None
-        if ft is not None and not ft.heap and ft is not T.Const:
+        if ft is not None and ft.kind == "nullable":
+            pass  # a resolved reference (or None) replaces the unresolved entry value
+        elif ft is not None and not ft.heap and ft is not T.Const:
             val = self.coerce(self.data(val) if val.t.heap and not ft.heap else val, ft)
         cell.content[attr] = val
         if "__missing_" + attr in cell.content:
